@@ -430,6 +430,12 @@ def run(ctx, config='rel-all'):
                     else:
                         ctx.violation('O12', fn, 'reserve-vs-growth', '%s reserves %s additional elements and then raises the length by %s: a collection whose spare capacity would have held the new elements is reallocated (or the reservation is too small)' % (fn, show(amt)[:60], show(simplify(k))[:80]), e.span)
         ctx.floor('O12', n12, 4, 'own-frame (reserve, length increase) pairs')
+    # ---- R13 a collection keeps the buffer it reserved: no method replaces a whole Vec / String / RawVec reachable from one parameter
+    # by a value derived from another parameter (`mem::swap(self, other)` in an append fast path hands the reserved capacity of the
+    # destination to the source) - the whole-value overwrite rule of C20.R5, whose violation also voids the capacity promise
+    if config != 'rel-default':
+        from . import arenaid
+        arenaid.check(ctx, db, 'R13')
     # ---- O9 constructor glue: the convenience constructors hand their capacity on unchanged (new / try_new / default with 0) and a
     # fresh arena has no limit; min_align() reports the const parameter
     def bump_fn(name):
